@@ -47,6 +47,9 @@ EXPLANATION += ' R4: the VASP header reader is interpreted as a whole on model f
 # --- metadata added for batch 9
 EXPLANATION += ' Added: (R9) cube lengths and the angstrom flag (header pair and loader evaluated); (R10) the WFX gradient section is written as dE/dR without a change of sign.'
 # --- end metadata batch 9
+# --- metadata added after the last twin round
+EXPLANATION += ' The unit-tag interpreter treats `zip(*records)` over a list of fixed-arity tuples as a transposition (one list per field), so that a reader which collects one tuple per record and splits the columns afterwards keeps one unit per column.'
+# --- end metadata last twin round
 TRUSTED = ["CPython ast parser", "frozen unit oracle (DESIGN.md Appendix A; format specifications)", "frozen CODATA 2018 values in spec/codata.json"]
 
 # non-plain reader slots: (module, key path) -> expected tag text.  Everything else must be plain.
